@@ -240,9 +240,9 @@ def renderStep (dims : String) (nodesStr : String) (impl : String) : String :=
         if !wellFormed nodes then "-"
         else if impl = "panic" then "FAIL panic: render panicked on a well-formed surface tree"
         else
-          let want := cellsStr (Spec.Surface.expectedPaint (2 * nodes.length + 2) true t sw sh)
+          let want := cellsStr (Spec.Surface.expectedPaint true t sw sh)
           if impl = want then "ok"
-          else if impl = cellsStr (Spec.Surface.expectedPaint (2 * nodes.length + 2) false t sw sh) then
+          else if impl = cellsStr (Spec.Surface.expectedPaint false t sw sh) then
             s!"FAIL rootclip: children of the root are painted outside the root surface: got {impl} want {want}"
           else s!"FAIL paint: got {impl} want {want}"
       s!"{mc}\t{impl}\t{verdict}"
